@@ -68,7 +68,8 @@ def _quiet_exit():
 def _solve(q0, z, prof, domain, levels, **kw):
     from bldfm.solver import steady_state_transport_solver
     lv = int(levels) if np.ndim(levels) == 0 else [int(l) for l in levels]
-    prof = tuple(np.ascontiguousarray(a, dtype=float) for a in prof)
+    # (integer-typed profile arrays -- hand-built uniform profiles `np.full(nz, 2)` -- keep their type)
+    prof = tuple(np.ascontiguousarray(a) if np.asarray(a).dtype.kind in "iu" else np.ascontiguousarray(a, dtype=float) for a in prof)
     try:
         _, conc, flx = steady_state_transport_solver(
             q0, np.ascontiguousarray(z, dtype=float), prof, domain, lv,
@@ -301,7 +302,7 @@ def analytic_halo(nx, ny, dx, dy, const, grid, levels, halo, meas_pt, bg, footpr
 
 
 @S.kind("order")
-def order(nx, ny, dx, dy, const, gridkind, z0, zt, n, modes, level_fracs, ref, source, seed):
+def order(nx, ny, dx, dy, const, gridkind, z0, zt, n, modes, level_fracs, ref, source, seed, int_profiles=False):
     """Numerical mode at n, 2n, 4n layers; error against the closed form (per retained bin,
     ref='closed') or against analytic=True (field, one level, ref='analytic')."""
     q0 = make_source(source, ny, nx, seed)
@@ -328,6 +329,8 @@ def order(nx, ny, dx, dy, const, gridkind, z0, zt, n, modes, level_fracs, ref, s
     for f in (1, 2, 4):
         z = make_grid(gridkind, z0, zt, n * f)
         prof = tuple(float(c) * np.ones(len(z)) for c in const)
+        if int_profiles:        # whole-number winds and diffusivities given as integer arrays
+            prof = tuple(np.full(len(z), int(c), dtype=np.int64) for c in const)
         if ref == "closed":
             lv = sorted(set(int(round(fr * n)) * f for fr in level_fracs))
         else:
@@ -402,6 +405,16 @@ def generate(tier, rng):
                         closure_kw=None, levels=lv, modes=modes, meas_pt=mp,
                         bg=0.0 if fp else (0.0, 1.7, -0.4)[c % 3], footprint=fp,
                         source=SOURCES[c % 3], seed=rng.randrange(10 ** 6))
+    # a fine horizontal grid under a deep column: components that have decayed to nothing at the top level are still of
+    # order one at the low levels of the same request (any order of the levels)
+    for k, (nx, ny, dx, dy) in enumerate(((16, 12, 0.5, 0.4), (12, 16, 0.3, 0.5), (20, 10, 0.25, 0.5))):
+        for fp in (False, True):
+            for lv in ([0, 8], [8, 1, 0], [2, 8]):
+                yield "analytic_bins", dict(
+                    nx=nx, ny=ny, dx=dx, dy=dy, const=CONSTS[(k + fp) % 4],
+                    grid=dict(kind=("uniform", "geometric")[k % 2], z0=0.2, zt=12.0, n=8),
+                    closure_kw=None, levels=lv, modes=[nx, ny], meas_pt=[0.0, 0.0] if not fp else [3 * dx, 2 * dy],
+                    bg=0.0 if fp else 0.6, footprint=fp, source=("sparse", "random")[k % 2], seed=rng.randrange(10 ** 6))
     for i, wind in enumerate([[3.0, 1.0], [-1.5, 2.0]]):
         for lv in (4, [1, 4, 8]):
             yield "analytic_bins", dict(
@@ -443,6 +456,12 @@ def generate(tier, rng):
                     n=n, modes=[4, 4] if ref == "analytic" else [8, 6],
                     level_fracs=[0.25, 0.5, 1.0], ref=ref, source=SOURCES[c % 3],
                     seed=rng.randrange(10 ** 6))
+    # whole-number uniform profiles handed over as integer arrays
+    for k, const in enumerate(([3, 1, 2, 2, 2], [-2, 2, 1, 3, 2], [4, -3, 2, 1, 3])):
+        for ref in ("closed", "analytic"):
+            yield "order", dict(nx=8, ny=6, dx=100.0, dy=100.0, const=const, gridkind=("uniform", "geometric", "gentle")[k], z0=0.2, zt=10.0,
+                                n=(16, 32, 16)[k] if ref == "closed" else (16, 64, 16)[k], modes=[4, 4] if ref == "analytic" else [8, 6],
+                                level_fracs=[0.25, 0.5, 1.0], ref=ref, source=SOURCES[k % 3], seed=rng.randrange(10 ** 6), int_profiles=True)
     # ---- seeded random members (thorough only)
     if thorough:
         dxs = [3.0, 4.0, 5.0, 7.5, 10.0, 12.5, 20.0]
